@@ -337,6 +337,15 @@ func main() {
 		}
 	}
 	ex.DefNat("blockCacheInvalidations", n)
+	// the order of the steps inside the database transaction of SaveBlock that updates state and indexes
+	var steps []string
+	for _, c := range cs.Calls(cs.MustFunc("ChainStoreFFLDB.SaveBlock").Body) {
+		switch c {
+		case "dbPutBestState", "dbPutBlockIndex", "processor", "c.indexManager.ConnectBlock":
+			steps = append(steps, c)
+		}
+	}
+	ex.DefStrList("saveBlockSteps", steps)
 	// who calls the two reorganisation entry points that do NOT clean the UTXO cache (whole repo, non-test files)
 	ex.DefStrList("reorganizeChain2Callers", callersOf("reorganizeChain2"))
 	ex.DefStrList("exportedReorganizeChain2Callers", callersOf("ReorganizeChain2"))
